@@ -19,10 +19,11 @@ type c06p struct {
 	errAt          int
 	poster, drawer bool
 	cycles         int
+	refused        bool // a Resume() on the running screen (refused) precedes the shutdown call
 }
 
 func (p c06p) String() string {
-	return fmt.Sprintf("op=%s e=%d c=%d polling=%v resize=%v errAt=%d poster=%v drawer=%v cycles=%d", p.op, p.e, p.c, p.polling, p.resize, p.errAt, p.poster, p.drawer, p.cycles)
+	return fmt.Sprintf("op=%s e=%d c=%d polling=%v resize=%v errAt=%d poster=%v drawer=%v cycles=%d refused-resume=%v", p.op, p.e, p.c, p.polling, p.resize, p.errAt, p.poster, p.drawer, p.cycles, p.refused)
 }
 
 var c06table []c06p
@@ -66,6 +67,8 @@ func restoredAtReturn(res *result) string {
 		return fmt.Sprintf("not-restored: colours/attributes are not reset when the shutdown call returns (%+v)", t.Pen)
 	case t.KeypadApp:
 		return "not-restored: keypad application mode is still on"
+	case t.Pen.Link != "":
+		return "not-restored: a hyperlink is still open when the shutdown call returns"
 	}
 	for _, m := range []int{1, 1000, 1002, 1003, 1006, 2004, 1004} {
 		if t.Modes[m] {
@@ -123,6 +126,13 @@ func c06Scenarios() []scenario {
 		}
 		add(c06p{op: "suspend-fini", cycles: cyc, c: 12, e: 10})
 	}
+	// a redundant Resume() on a running screen is refused; the shutdown that follows must still return
+	for _, op := range []string{"fini", "suspend"} {
+		add(c06p{op: op, refused: true})
+		add(c06p{op: op, refused: true, c: 2, e: 10})
+		add(c06p{op: op, refused: true, c: 12, e: 10, polling: true})
+	}
+	add(c06p{op: "suspend", refused: true, cycles: 1, c: 1})
 	for _, cyc := range []int{1, 2} {
 		add(c06p{op: "suspend", cycles: cyc, c: 1})
 		add(c06p{op: "suspend", cycles: cyc, c: 2, e: 3, poster: true})
@@ -164,6 +174,11 @@ func c06prog(ps string, res *result) func() {
 		verifrt.Window()
 		// ---- explored part ----
 		spawn("shutdown", func() {
+			if p.refused {
+				if err := s.Resume(); err == nil {
+					res.fail("Resume() on a running screen returned nil")
+				}
+			}
 			if p.op == "fini" {
 				s.Fini()
 				res.flags["returned"] = true
